@@ -32,6 +32,13 @@ def gen_cases(tier, seed):
             yield Case(e, [x], [], 'dtc flags')
         yield Case(1905, [x], [], 'commtype from_byte')
         yield Case(1907, [x], [], 'dfi from_byte')
+    # the decoded objects are documented as mutable: the same decodings again after an earlier decoding of the same byte has
+    # been edited by its owner (catches decoders that hand out shared / memoised objects)
+    for x in range(256):
+        for e in (1901, 1902, 1903):
+            yield Case(e, [x, POISON], [], 'dtc flags after an edited decode')
+        yield Case(1905, [x, POISON], [], 'commtype from_byte after an edited decode')
+        yield Case(1907, [x, POISON], [], 'dfi from_byte after an edited decode')
     for s in range(-1, 18):
         for n in (0, 1):
             for m in (0, 1):
@@ -59,6 +66,32 @@ def gen_cases(tier, seed):
         yield Case(1910, [rnd.randrange(1 << 24)], [], 'pack_dtc random')
 
 
+POISON = 777
+
+
+def scramble(obj, depth=0):
+    """edit every attribute of a decoded helper object, as its owner may"""
+    for k, v in list(vars(obj).items()):
+        try:
+            if isinstance(v, bool):
+                setattr(obj, k, not v)
+            elif isinstance(v, int):
+                setattr(obj, k, v ^ 1)
+            elif hasattr(v, '__dict__') and depth < 2:
+                scramble(v, depth + 1)
+        except Exception:
+            pass
+
+
+def poison(e, x):
+    from udsoncan import Dtc, CommunicationType, DataFormatIdentifier
+    for cls in (Dtc.Status, Dtc.Severity, Dtc.DtcClass, CommunicationType, DataFormatIdentifier):
+        try:
+            scramble(cls.from_byte(x))
+        except Exception:
+            pass
+
+
 def fields_of(cls):
     return [p for p in inspect.signature(cls.__init__).parameters if p != 'self']
 
@@ -74,6 +107,8 @@ def impl(c):
     from udsoncan import Dtc, CommunicationType, DataFormatIdentifier, AddressAndLengthFormatIdentifier, Baudrate
     from udsoncan.services import ReadDTCInformation
     e, a = c.entry, c.ints
+    if a and a[-1] == POISON and e in (1901, 1902, 1903, 1905, 1907):
+        poison(e, a[0])
     if e in CLS:
         cls = getattr(Dtc, CLS[e])
         fl = fields_of(cls)
